@@ -413,7 +413,8 @@ def _class_incompatibilities(
     seen_paths: set[str],
 ) -> Iterable[Breakage]:
     yield from ()
-    if new_class.bases != old_class.bases and len(new_class.bases) < len(old_class.bases):
+    # A base is removed when it is not listed anymore, even if another one was added meanwhile.
+    if any(base not in new_class.bases for base in old_class.bases):
         yield ClassRemovedBaseBreakage(new_class, old_class.bases, new_class.bases)
     yield from _member_incompatibilities(old_class, new_class, seen_paths=seen_paths)
 
